@@ -782,6 +782,18 @@ def regression_cases(mode):
     fl = {"t": "Filler", "w": T_("one"), "valign": "top"}
     for seed in range(6):
         out.append({"mode": mode, "kind": "box", "recipe": fl, "sizes": [[10, 3], [10, 4]], "ops": [["render", 0, 0], ["clear"], ["render", 1, 0], (["gc", seed, "keep-last"] if seed % 2 else ["gc", seed]), ["mut", 1, ["set_text", "two"]], ["render", 1, 0], ["render", 0, 0]]})
+    # scroll state reached only key by key: a tall item partly scrolled off, then back (looks after every key)
+    tall = "\n".join(f"line {i}" for i in range(12))
+    lbs = [
+        {"t": "ListBox", "items": [T_(tall), T_("after")], "walker": "simple", "focus": 0},
+        {"t": "ListBox", "items": [T_("before"), {"t": "Edit", "caption": "", "text": "\n".join(f"e{i}" for i in range(9)), "multiline": True, "align": "left", "wrap": "space", "pos": 0}, {"t": "Button", "label": "b"}], "walker": "focus", "focus": 1},
+    ]
+    for lbr in lbs:
+        for seq in (["down", "down", "down", "page up"], ["page down", "page up"], ["down", "down", "up", "up"], ["page down", "page down", "page up", "up"], ["down", "page down", "up", "page up"]):
+            ops = [["render", 0, 1]]
+            for key in seq:
+                ops += [["key", 0, key], ["render", 0, 1]]
+            out.append({"mode": mode, "kind": "box", "recipe": lbr, "sizes": [[14, 5], [22, 8]], "ops": ops})
     both = []
     for d in out:
         both.append(d)
